@@ -187,13 +187,13 @@ func TestVerifC09Lin(t *testing.T) {
 	depth, bound := 4, 2
 	ops := []string{"AA", "AB", "AC", "AAC", "ABC"}
 	maxes := []int{1, 2}
-	if vrt.RaceBuild {
-		depth = 3 // the race build repeats the exploration for the detector's sake: fewer start states
-	}
 	if vres.Thorough() {
-		depth, bound = 6, 3
+		depth, bound = 4, 3
 		ops = append(ops, "AAA", "AAB", "AABC")
 		maxes = []int{1, 2, 3}
+	}
+	if vrt.RaceBuild {
+		depth = 3 // the race build repeats the exploration for the detector's sake: fewer start states
 	}
 	i := 0
 	for _, max := range maxes {
@@ -201,7 +201,7 @@ func TestVerifC09Lin(t *testing.T) {
 			for _, o := range ops {
 				if vh.MyShard(i) {
 					b := bound
-					if len(o) > 3 {
+					if len(o) > 2 {
 						b = 2
 					}
 					vh.RunS(r, "TestVerifC09Lin", c09lScenario(r, c09lParams{Max: max, Prefix: pre, Ops: o}, b))
